@@ -52,7 +52,7 @@ ALLOC_ARG = ('xfb', 'xbb', 'mto', 'mfrom', 'pto', 'trunc', 'pushb', 'pushf', 'pu
 class Check(DiffCheck):
     id = 'C14'
     coq_dirs = ['C14']
-    coq_targets = ['C14/C14_Lib.vo', 'C14/C14_Proofs.vo', 'C14/C14_Seq.vo']
+    coq_targets = ['C14/C14_Lib.vo', 'C14/C14_Proofs.vo', 'C14/C14_Copy.vo', 'C14/C14_Alloc.vo', 'C14/C14_Seq.vo']
     properties_v = 'C14/C14_Properties.v'
     extract_v = 'C14/C14_Extract.v'
     runner_ml = 'ocaml/C14_run.ml'
@@ -124,6 +124,22 @@ class Check(DiffCheck):
                 if own:
                     for op in ('popf', 'popb', 'clear', 'pushb 2', 'pushf 2', 'pushb 0', 'pushba 3', 'pushfa 3'):
                         cs.append('%s ; %s' % (h, op))
+        # small capacity / small allocator chunk: the allocating paths and their failure branches
+        for sh in shapes:
+            if len(sh) > 3: continue
+            S = sum(sh)
+            for (cap, rf, chunk) in ((4, 1, 2), (3, 0, 1), (5, 2, 48)):
+                if not quick or (cap, rf, chunk) == (4, 1, 2) or len(sh) <= 2:
+                    h = 'O %d %d %d %s' % (cap, rf, chunk, shape_s(sh))
+                    for n in range(S + 6):
+                        cs.append('%s ; trunc %d' % (h, n))
+                        cs.append('%s ; xfc %d' % (h, n)); cs.append('%s ; xbc %d' % (h, n))
+                    for k in range(6):
+                        cs.append('%s ; pushba %d' % (h, k)); cs.append('%s ; pushfa %d' % (h, k))
+                        cs.append('%s ; pushb %d ; pushb 1 ; pushf %d ; pushf 1 ; sum' % (h, k, k))
+                    for n in (0, 1, S, S + 1):
+                        cs.append('%s ; xfv %d 0' % (h, n)); cs.append('%s ; xbv %d 0' % (h, n)); cs.append('%s ; slice %d 0 0' % (h, n))
+                    cs.append('%s ; pushba 4 ; pushfa 3 ; trunc %d ; xfc %d ; xbc 1 ; trunc 0 ; trunc 3' % (h, S + 3, min(S, 2)))
         # big byte counts on a few shapes
         for sh in ([], [0], [2, 0, 3], [1, 2, 3, 0]):
             for h in ('V 0 0 1 %s' % shape_s(sh), 'O 32 4 4096 %s' % shape_s(sh)):
